@@ -18,7 +18,7 @@ from urllib.parse import parse_qsl, quote, quote_plus, unquote, urlsplit
 
 import sdc11073.definitions_sdc  # noqa: F401  (protocol registry)
 from sdc11073.location import SdcLocation
-from sdc11073.mdib import statecontainers
+from sdc11073.mdib import ProviderMdib, statecontainers
 from sdc11073.provider import scopesfactory
 from sdc11073.wsdiscovery import wsdimpl
 from sdc11073.wsdiscovery.service import Service
@@ -180,6 +180,143 @@ def impl_filter(t, svcs) -> str:
         return 'ok ' + ' '.join(s.epr for s in res)
     except Exception as ex:  # noqa: BLE001
         return _exc(ex)
+
+
+# ---------------------------------------------------------------------------------------------- location histories
+class ContainerBackend:
+    """one LocationContextStateContainer object that is updated again and again (no MDIB, no transaction)"""
+    name = 'container'
+
+    def __init__(self):
+        self.state = statecontainers.LocationContextStateContainer(mock.MagicMock(Handle='d', DescriptorVersion=0), 'h')
+
+    def step(self, kind, t) -> str:  # noqa: ARG002
+        try:
+            self.state.update_from_sdc_location(mk_loc(t))
+        except Exception as ex:  # noqa: BLE001
+            return _exc(ex)
+        return 'ok'
+
+    def scopes(self):
+        return list(scopesfactory.mk_scopes(_mock_mdib(self.state)).text)
+
+
+class MdibBackend:
+    """a real ProviderMdib: `set` = xtra.set_location (new associated state), `tx` = update of the associated state
+    inside a context state transaction"""
+    name = 'mdib'
+    MDIB_FILE = os.path.join(os.environ.get('VERIF_REPO', '/repo'), 'tests', '70041_MDIB_Final.xml')
+
+    def __init__(self):
+        self.mdib = ProviderMdib.from_mdib_file(self.MDIB_FILE)
+
+    def _associated(self):
+        pm = self.mdib.data_model.pm_names
+        assoc = self.mdib.data_model.pm_types.ContextAssociation.ASSOCIATED
+        return [s for e in self.mdib.entities.by_node_type(pm.LocationContextDescriptor) for s in e.states.values()
+                if s.ContextAssociation == assoc]
+
+    def step(self, kind, t) -> str:
+        try:
+            if kind == 'set' or not self._associated():
+                self.mdib.xtra.set_location(mk_loc(t))
+            else:
+                handle = self._associated()[0].Handle
+                with self.mdib.context_state_transaction() as mgr:
+                    mgr.get_context_state(handle).update_from_sdc_location(mk_loc(t))
+        except Exception as ex:  # noqa: BLE001
+            return _exc(ex)
+        return 'ok'
+
+    def scopes(self):
+        return list(scopesfactory.mk_scopes(self.mdib).text)
+
+
+def encloses(probe, loc) -> bool:
+    """the statement: `probe` is the location itself or a less specific one (root fixed by the provider)"""
+    return probe[0] == DEFAULT_ROOT and all(p is None or p == v for p, v in zip(probe[1:], loc[1:]))
+
+
+def run_history(ctx, backend_cls, steps, rng, emit=None):
+    """steps = [(kind, location)]; after every step: the published scopes must place the provider in exactly the
+    locations that enclose the location it was last (successfully) given. emit(line, impl, case) feeds the model."""
+    backend = backend_cls()
+    case = {'op': 'history', 'backend': backend.name, 'steps': [[k, list(t)] for k, t in steps]}
+    if emit:
+        emit('lsreset', 'ok', case)
+    current, seen, half_updated = None, [], False
+    for i, (kind, t) in enumerate(steps):
+        res = backend.step(kind, t)
+        seen.append(t)
+        if res == 'ok':
+            current, half_updated = t, False
+        elif backend.name == 'container':
+            half_updated = True     # no transaction around it: the object is left half updated, nothing is demanded
+        ctx.count(f'history:{backend.name}:{kind}:{res}')
+        if emit:
+            emit(('lsupdate ' if backend.name == 'container' else 'lstx ') + show_loc(t), res, {**case, 'at': i})
+        try:
+            scopes = backend.scopes()
+            loc_scopes = [x for x in scopes if x.startswith('sdc.ctxt.loc:')]
+            pub = 'ok ' + hx(loc_scopes[0]) if len(loc_scopes) == 1 else f'err {len(loc_scopes)}-location-scopes'
+        except Exception as ex:  # noqa: BLE001
+            scopes, pub = None, _exc(ex)
+        if emit:
+            emit('lspub', pub, {**case, 'at': i})
+        if current is None or half_updated:
+            continue
+        if scopes is None:
+            ctx.fail('published-after-update:raises', f'mk_scopes raised {pub} after step {i}', {**case, 'at': i})
+            continue
+        # probes: around the current location, and around every earlier one (stale elements must not count)
+        probes = [enclosing_of(current, m, DEFAULT_ROOT) for m in (0, 63, rng.randrange(64), rng.randrange(64))]
+        for old in seen:
+            probes += [enclosing_of(old, m, DEFAULT_ROOT) for m in (63, rng.randrange(64), rng.randrange(64))]
+            mixed = tuple([DEFAULT_ROOT] + [rng.choice([a, b, None]) for a, b in zip(old[1:], current[1:])])
+            probes.append(mixed)
+        svc = mk_services([scopes])
+        for probe in probes:
+            expected = encloses(probe, current)
+            try:
+                found = len(mk_loc(probe).filter_services_inside(svc)) == 1
+            except Exception as ex:  # noqa: BLE001
+                ctx.fail('filter-raises:' + type(ex).__name__, f'{ex!r}', {**case, 'at': i, 'probe': list(probe)})
+                break
+            if found != expected:
+                ctx.fail('published-after-update:' + ('stale-or-wrong-location-inside' if found else 'not-inside-enclosing'),
+                         f'after {[k for k, _ in steps[:i + 1]]} the provider is at {current!r}, publishes {[x for x in scopes if x.startswith("sdc.ctxt.loc:")]}; '
+                         f'inside {probe!r}: expected {expected}, filter_services_inside says {found}', {**case, 'at': i, 'probe': list(probe)})
+                return
+    ctx.case(case, nontrivial=len(steps) > 1)
+
+
+def rand_history(rng, backend_name):
+    """A -> (less specific | more specific | other values | nothing set) ..."""
+    cur = list(rand_loc(rng, mask=rng.choice([63, 63, rng.randrange(1, 64)]), root=DEFAULT_ROOT))
+    if not any(cur[1:]):
+        cur[1] = 'HOSP1'
+    steps = [('set' if backend_name == 'mdib' else 'update', tuple(cur))]
+    for _ in range(rng.randrange(1, 6)):
+        k = rng.random()
+        nxt = list(cur)
+        if k < 0.4:       # less specific: some elements are not known any more
+            for j in range(1, 7):
+                if rng.random() < 0.5:
+                    nxt[j] = None
+        elif k < 0.6:     # somewhere else
+            nxt = list(rand_loc(rng, root=DEFAULT_ROOT))
+        elif k < 0.8:     # some elements change, some appear
+            for j in range(1, 7):
+                if rng.random() < 0.4:
+                    nxt[j] = rand_string(rng)
+        elif k < 0.9:     # present but empty / nothing at all
+            nxt = [DEFAULT_ROOT] + [rng.choice([None, '']) for _ in range(6)]
+        else:             # same again
+            pass
+        steps.append((rng.choice(['set', 'tx', 'tx']) if backend_name == 'mdib' else 'update', tuple(nxt)))
+        if any(nxt[1:]):
+            cur = nxt
+    return steps
 
 
 DEVICE_TYPES = [(q.namespace, q.localname) for q in SdcV1Definitions.MedicalDeviceTypesFilter]
@@ -527,6 +664,8 @@ def run_case_oracle(ctx, case, rng):
         oracle_filter_expected(ctx, tuple(case['self']), case['services'], case['expected'])
     elif case['op'] == 'filter':
         oracle_filter(ctx, tuple(case['self']), case['services'])
+    elif case['op'] == 'history':
+        run_history(ctx, MdibBackend if case['backend'] == 'mdib' else ContainerBackend, [(k, tuple(t)) for k, t in case['steps']], rng)
     elif case['op'] == 'search':
         remote = [(None if ty is None else [tuple(x) for x in ty], sc) for ty, sc in case['remote']]
         oracle_search(ctx, tuple(case['self']), remote, case['expected'], impl_search(tuple(case['self']), remote))
@@ -732,6 +871,18 @@ def run(ctx):
         ctx.count('search:' + ('enclosing' if encloses else 'elsewhere') + f':found-{min(len(expected), 3)}')
         add(_search_line(t, remote), impl, {'op': 'search', 'self': list(t), 'remote': remote, 'expected': expected}, True)
 
+    # 2d. histories of location changes of ONE provider: the same state object updated again and again, and a real
+    #     ProviderMdib (set_location / update of the associated state in a context state transaction)
+    def emit(line, impl, case):
+        add(line, impl, case, True)
+    for case in load_corpus():
+        if case['op'] == 'history':
+            run_history(ctx, MdibBackend if case['backend'] == 'mdib' else ContainerBackend,
+                        [(k, tuple(t)) for k, t in case['steps']], rng, emit)
+    for i in range(ctx.n(500, 6000)):
+        cls = MdibBackend if i % 2 else ContainerBackend
+        run_history(ctx, cls, rand_history(rng, cls.name), rng, emit)
+
     # 3. library functions under the model: parse_qsl, UTF-8 repair, quote / quote_plus / unquote
     for _ in range(ctx.n(1500, 10000)):
         q = rng.choice(QUERIES) if rng.random() < 0.4 else '&'.join(
@@ -798,6 +949,8 @@ def search(ctx):
             oracle_roundtrip(ctx, t)
             oracle_published(ctx, t, rng, all_masks=False)
         oracle_filter(ctx, rand_loc(rng), [[rand_foreign_scope(rng)]])
+        cls = rng.choice([ContainerBackend, MdibBackend])
+        run_history(ctx, cls, rand_history(rng, cls.name), rng)
         if ctx.failures:
             return
 
